@@ -5,7 +5,8 @@ cd /verif
 IDS="$@"; [ -z "$IDS" ] && IDS=$(ls seeded)
 BAD=0
 for s in $IDS; do
-  P=$(python3 -c "import json;print(json.load(open('seeded/$s/meta.json'))['breaks_property'])")
+  P=$(python3 -c "import json;m=json.load(open('seeded/$s/meta.json'));print('SKIP' if m.get('not_pursued') else m['breaks_property'])")
+  [ "$P" = SKIP ] && { echo "$s not-pursued (see meta.json)"; continue; }
   W=$(mktemp -d /tmp/reseed-XXXXXX)
   git -C /repo worktree add -q --detach $W/w HEAD >/dev/null 2>&1
   if ! git -C $W/w apply /verif/seeded/$s/patch.diff 2>/dev/null; then echo "$s $P PATCH-DOES-NOT-APPLY"; BAD=1
